@@ -1093,12 +1093,14 @@ impl ServiceRunner {
                 2
             } else if s.starts_with("cb:") {
                 3
+            } else if s.starts_with("qres:") {
+                4
             } else {
                 0
             }
         };
         let mut items: Vec<String> = Vec::new();
-        for c in 0..4 {
+        for c in 0..5 {
             let mut g: Vec<String> = so.items.iter().filter(|s| class(s) == c).cloned().collect();
             if c == 2 {
                 g.sort();
@@ -1114,7 +1116,7 @@ impl ServiceRunner {
     }
 
     /// Suffix of a resolved op: peers of the query-originated requests emitted, query finished.
-    fn query_suffix(&mut self, x: char, so: &StepOut) -> String {
+    fn query_suffix(&mut self, x: char, so: &mut StepOut) -> String {
         let mut s = String::new();
         let Some(inst) = self.insts.get_mut(&x) else { return s };
         let q: Vec<String> = so
@@ -1130,6 +1132,14 @@ impl ServiceRunner {
             if h.is_finished() {
                 let h = inst.query.take().unwrap();
                 let r = self.rt.as_ref().unwrap().block_on(h).unwrap_or_else(|_| "panic".into());
+                // (the result as a compared item of the reply: how many records, which nodes, in which order)
+                let (r, ids) = match r.split_once('|') {
+                    Some((a, b)) => (a.to_string(), b.to_string()),
+                    None => (r, "-".to_string()),
+                };
+                if let Some(n) = r.strip_prefix("ok:").and_then(|n| n.split(':').next().unwrap_or("").parse::<usize>().ok()) {
+                    so.items.push(format!("qres:{}:{}", n, ids));
+                }
                 s.push_str(" qfin");
                 // C09: a lookup that ends hands its result (possibly empty) to the caller
                 if r == "err" || r == "panic" {
@@ -1897,7 +1907,7 @@ impl Runner for ServiceRunner {
                         let Some(total) = parse_u64_tok(total) else { return noop(out) };
                         let nodes = self.items(x, k, items);
                         let table_before = self.insts[&x].discv5.table_entries_enr();
-                        let so = self.inject_nodes(x, k, from, total, nodes.clone(), false, out, stats);
+                        let mut so = self.inject_nodes(x, k, from, total, nodes.clone(), false, out, stats);
                         // C12: of two records of one node offered in one answer that differ in nothing but
                         // the sequence number, both newer than the stored one, the older is never what stays
                         for after in self.insts[&x].discv5.table_entries_enr() {
@@ -1912,7 +1922,7 @@ impl Runner for ServiceRunner {
                                 out.push(format!("!MON C12 older-of-two-records-offered-in-one-answer-kept id={} stored-seq={}", id8(&after.node_id().raw()), after.seq()));
                             }
                         }
-                        let sfx = self.query_suffix(x, &so);
+                        let sfx = self.query_suffix(x, &mut so);
                         let recs = if nodes.is_empty() { "-".to_string() } else { nodes.iter().map(|e| rec_abs(e, f)).collect::<Vec<_>>().join(",") };
                         out.push(format!("!OP {} nodes {} {}{}", head, total, recs, sfx));
                         self.finish(x, "sresp", None, so, None, out, stats);
@@ -2032,7 +2042,7 @@ impl Runner for ServiceRunner {
                 let id = self.insts[&x].reqs[k - 1].id.clone();
                 let is_q = self.insts[&x].reqs[k - 1].is_query;
                 let _ = self.insts[&x].hout.try_send(HandlerOut::RequestFailed(id, RequestError::Timeout));
-                let so = self.observe(x, is_q, false);
+                let mut so = self.observe(x, is_q, false);
                 {
                     let r = &mut self.insts.get_mut(&x).unwrap().reqs[k - 1];
                     if r.outstanding && !r.callback && r.received > 0 {
@@ -2041,7 +2051,7 @@ impl Runner for ServiceRunner {
                     r.outstanding = false;
                 }
                 stats.bump("s.failures");
-                let sfx = self.query_suffix(x, &so);
+                let sfx = self.query_suffix(x, &mut so);
                 out.push(format!("!OP sfail {} r{}{}", x, k, sfx));
                 self.finish(x, "sfail", None, so, None, out, stats);
             }
@@ -2065,7 +2075,8 @@ impl Runner for ServiceRunner {
                             // the result comes in increasing distance to the target, no node twice
                             let ds: Vec<[u8; 32]> = v.iter().map(|e| xor_dist(&e.node_id().raw(), &tg)).collect();
                             let sorted = ds.windows(2).all(|w| w[0] < w[1]);
-                            format!("ok:{}{}", v.len(), if sorted { "" } else { ":unsorted" })
+                            let ids: Vec<String> = v.iter().map(|e| id8(&e.node_id().raw())).collect();
+                            format!("ok:{}{}|{}", v.len(), if sorted { "" } else { ":unsorted" }, if ids.is_empty() { "-".to_string() } else { ids.join(",") })
                         }
                         Err(_) => "err".to_string(),
                     }
@@ -2081,7 +2092,7 @@ impl Runner for ServiceRunner {
                 }
                 self.insts.get_mut(&x).unwrap().query = Some(h);
                 self.insts.get_mut(&x).unwrap().query_k = k;
-                let so = self.observe(x, true, false);
+                let mut so = self.observe(x, true, false);
                 stats.bump("s.queries");
                 for k in &so.new_reqs {
                     if let RequestBody::FindNode { distances } = &self.insts[&x].reqs[*k - 1].body {
@@ -2089,8 +2100,9 @@ impl Runner for ServiceRunner {
                         stats.bump(&format!("s.query-distance-class.{}", if d == 0 { "0".into() } else if d == 1 { "1".into() } else if d <= 8 { "2-8".into() } else if d <= 245 { "9-245".to_string() } else { "246-256".into() }));
                     }
                 }
-                let sfx = self.query_suffix(x, &so);
-                out.push(format!("!OP squery {} {}{}", x, hex::encode(tg), sfx));
+                let sfx = self.query_suffix(x, &mut so);
+                let ktok = match k { Some(k) => format!(" k={}", k), None => String::new() };
+                out.push(format!("!OP squery {} {}{}{}", x, hex::encode(tg), ktok, sfx));
                 self.finish(x, "squery", None, so, None, out, stats);
             }
             ["sapi", _, kind, rec, args @ ..] => {
@@ -2203,7 +2215,7 @@ impl Runner for ServiceRunner {
                 if all.bans_node.iter().any(|n| n.raw() == contact_addr.node_id.raw()) || all.bans_ip.contains(&contact_addr.socket_addr.ip()) {
                     out.push(format!("!MON C11 honest-responder-banned req=r{} requested={}", k, show_dists(&distances, ".")));
                 }
-                let sfx = self.query_suffix(x, &all);
+                let sfx = self.query_suffix(x, &mut all);
                 out.push(format!("!OP shonest {} r{} {} {} {}{}", x, k, y, sock_num(&from_addr), hx(&rid.0), sfx));
                 self.finish(x, "shonest", None, all, Some(format!("pk={}", npk)), out, stats);
             }
